@@ -144,36 +144,48 @@ def generate (d : DS) (lib : Lib) (r : Req) : Lib × Except Fail Matrix :=
       else (lib1, .error .dimension)
     else (lib1, .ok m)
 
+/-- Enabling the integer normalisation if it was disabled (`__enable_integer_variables_normalization`),
+    and the reset of the `finally` clause (`__reset_integer_variables_normalization`). -/
+def enter (d : DS) (enabled : Bool) : DS := if enabled then d.setIntNorm true else d
+def leave (d1 : DS) (enabled : Bool) : DS := if enabled then d1.setIntNorm false else d1
+
+/-- Body of `compute_doe` (the `try` block), on the design space with the switch already set. -/
+def computeBody (d1 : DS) (lib : Lib) (r : Req) : Lib × Except Fail Matrix :=
+  if !r.unitSampling && r.useUnitHypercube && !(unboundedComponents d1).isEmpty then
+    (lib, .error .unbounded)
+  else if !r.settingsOk then (lib, .error .settings)
+  else
+    match generate d1 lib r with
+    | (lib1, .error e) => (lib1, .error e)
+    | (lib1, .ok us) =>
+      if r.unitSampling then (lib1, .ok us)
+      else (lib1, .ok (us.map (d1.unnormalizeVect true)))
+
 /-- `compute_doe(design_space, unit_sampling, **settings)`.  The integer normalisation is enabled
-    for the duration of the call (not for `unit_sampling`) and restored whatever the outcome. -/
+    for the duration of the call (not for `unit_sampling`) and restored whatever the outcome
+    (`try … finally`). -/
 def computeDoe (d : DS) (lib : Lib) (r : Req) : Outcome :=
   let enabled := !r.unitSampling && !d.intNorm
-  let d1 := if enabled then d.setIntNorm true else d
-  let restore : DS := if enabled then d1.setIntNorm false else d1
-  if !r.unitSampling && r.useUnitHypercube && !(unboundedComponents d1).isEmpty then
-    ⟨restore, lib, .error .unbounded⟩
-  else if !r.settingsOk then ⟨restore, lib, .error .settings⟩
+  let d1 := enter d enabled
+  let out := computeBody d1 lib r
+  ⟨leave d1 enabled, out.1, out.2⟩
+
+/-- Body of `_pre_run` (the `try` block): the results are kept in `unit_samples` / `samples`. -/
+def preRunBody (d1 : DS) (lib : Lib) (r : Req) : Lib × Except Fail Matrix :=
+  if r.useUnitHypercube && !(unboundedComponents d1).isEmpty then (lib, .error .unbounded)
   else
     match generate d1 lib r with
-    | (lib1, .error e) => ⟨restore, lib1, .error e⟩
+    | (lib1, .error e) => (lib1, .error e)
     | (lib1, .ok us) =>
-      if r.unitSampling then ⟨restore, lib1, .ok us⟩
-      else ⟨restore, lib1, .ok (us.map (d1.unnormalizeVect true))⟩
+      ({ lib1 with unitSamples := us, samples := us.map (d1.unnormalizeVect true) },
+       .ok (us.map (d1.unnormalizeVect true)))
 
-/-- `_pre_run` of `execute`: same pipeline, the results are kept in `unit_samples` / `samples`
-    (the settings have been validated by `execute` before). -/
+/-- `_pre_run` of `execute`: same pipeline (the settings have been validated by `execute` before). -/
 def preRun (d : DS) (lib : Lib) (r : Req) : Outcome :=
   let enabled := !d.intNorm
-  let d1 := if enabled then d.setIntNorm true else d
-  let restore : DS := if enabled then d1.setIntNorm false else d1
-  if r.useUnitHypercube && !(unboundedComponents d1).isEmpty then
-    ⟨restore, lib, .error .unbounded⟩
-  else
-    match generate d1 lib r with
-    | (lib1, .error e) => ⟨restore, lib1, .error e⟩
-    | (lib1, .ok us) =>
-      let xs := us.map (d1.unnormalizeVect true)
-      ⟨restore, { lib1 with unitSamples := us, samples := xs }, .ok xs⟩
+  let d1 := enter d enabled
+  let out := preRunBody d1 lib r
+  ⟨leave d1 enabled, out.1, out.2⟩
 
 /-- Keys of the database after a sequential `execute`: the samples in generation order, a point
     evaluated twice being stored once (first occurrence). -/
